@@ -407,10 +407,12 @@ package boltz
 //@   censures[a-successful-repair-writes] result == nil ==> ciDirty
 
 //@ func (*untypedEntityConstraintWrapper).ProcessPreCommit
-//@   props C07
+//@   props C07 C08
 //@   errflow
 //@   nosafety
 //@   modifies *
+//@   callpre[forwards-the-state-it-was-given] ProcessPreCommit@1: recv == self.constraint && ref(arg0) == ref(state)
+//@   lensures[always-forwards-and-returns-the-verdict] called(ProcessPreCommit, 1) && result == ret(ProcessPreCommit, 1)
 
 //@ func (*untypedEventListenerWrapper).ProcessPreCommit
 //@   props C07
